@@ -78,8 +78,14 @@ def gen(rng, tier):
         for _ in range(rng.choice([1, 2, 3, 5])):
             r = rng.random()
             if r < 0.6:
-                ops.append({'op': 'request', 'route': rng.choice(['/echo', '/echo', '/echo', '/raise', '/noarg']), 'p': _payload(rng, next(seqs)),
-                            'lat': rng.choice([0, 0, 0.001, 0.01, 0.05])})
+                op = {'op': 'request', 'route': rng.choice(['/echo', '/echo', '/echo', '/raise', '/noarg']), 'p': _payload(rng, next(seqs)),
+                      'lat': rng.choice([0, 0, 0.001, 0.01, 0.05])}
+                if rng.random() < 0.2:
+                    # the caller gives up before the handler is done; the late response must not reach anybody else
+                    op['route'] = '/echo'
+                    op['lat'] = rng.choice([0.02, 0.05, 0.2])
+                    op['give_up_after'] = rng.choice([0.0005, 0.005, 0.015])
+                ops.append(op)
             else:
                 ops.append({'op': 'stream', 'ps': [_payload(rng, next(seqs)) for _ in range(rng.choice([1, 3, 6]))],
                             'lats': [rng.choice([0, 0.001, 0.02]) for _ in range(3)], 'return_x': rng.random() < 0.5,
@@ -242,6 +248,10 @@ def run(sim, sc):
     d = '/tmp/verif-sock-%d' % osproc._real_getpid()  # the real pid: os.getpid() answers with the simulated pid inside a run
     os.makedirs(d, exist_ok=True)
     path = d + '/s'
+    try:
+        os.unlink(path)  # left behind by an earlier (aborted) run of a process with the same recycled pid
+    except OSError:
+        pass
     lat_of = {}
     for th in sc['threads']:
         for op in th['ops']:
@@ -305,6 +315,15 @@ def run(sim, sc):
         for op in ops:
             if op['op'] == 'request':
                 x = mk_payload(op['p'])
+                if op.get('give_up_after'):
+                    try:
+                        y = client.request('/echo', x, response_timeout=op['give_up_after'])
+                        results.append((op['p']['seq'], op['route'], x, 'value', y))  # it may still make it in time: then it must be right
+                    except Exception:
+                        sim.count('request_abandoned_by_caller')
+                    y = None
+                    sim.gc_point(0.5)
+                    continue
                 try:
                     if op['route'] == '/noarg':
                         y = client.request('/noarg', response_timeout=200)
